@@ -111,7 +111,7 @@ func c15Run(r *zsim.Run) {
 		}
 		return true
 	}
-	together := false // several first subscribers at once: deliveries of one load are still in flight when another returns
+	together := 0 // > 0: several subscribers attach at once: deliveries of one load are still in flight when another returns
 	// settle: everything delivered so far has been processed, slow change listeners included
 	inListener := 0 // change listeners currently running (some are slow)
 	settle := func() {
@@ -169,7 +169,7 @@ func c15Run(r *zsim.Run) {
 		subs = append(subs, cs)
 		r.Logf("subscriber %d attached to %s exclusive=%v", len(subs)-1, prefix, ex)
 		// a subscriber that joins sees the current set at once
-		if etcd.Connected && !together {
+		if etcd.Connected && together == 0 {
 			got := append([]string(nil), s.Values()...)
 			sort.Strings(got)
 			want := expected(prefix, ex)
@@ -236,7 +236,7 @@ func c15Run(r *zsim.Run) {
 	if o.Intn(3) == 0 {
 		// the first subscribers arrive together while the initial Get is still on its way
 		etcd.GetDelay = 50 * time.Millisecond
-		together = true
+		together++
 		n, done := 2+o.Intn(2), 0
 		for i := 0; i < n; i++ {
 			r.Go(fmt.Sprintf("attach%d", i), func() {
@@ -249,7 +249,7 @@ func c15Run(r *zsim.Run) {
 			return
 		}
 		etcd.GetDelay = 0
-		together = false
+		together--
 		r.Probe("concurrent_first_subscribers")
 		if r.Failed() {
 			return
@@ -324,11 +324,26 @@ func c15Run(r *zsim.Run) {
 					zsim.Sleep(etcd.GetDelay + time.Duration(o.Intn(3))*time.Millisecond)
 					r.Probe("join_during_reload_slow_reads")
 				}
-				together = true
+				together++
 				ok := attach()
-				together = false
+				together--
 				r.Probe("join_during_reload")
 				return ok
+			}
+			// in some runs a subscriber is attaching (its monitor call is under way) when the reconnect arrives
+			attachDone, early := true, false
+			if f.Intn(4) == 0 && len(subs) < 4 {
+				attachDone, early = false, true
+				together++
+				// its snapshot read takes a few milliseconds; the reconnect arrives in the instant in which that read
+				// comes back, so that the rest of the monitor call and the start of the reload are interleaved
+				if !twice {
+					etcd.GetDelay = time.Duration(zsim.Pick(o, 2, 5)) * time.Millisecond
+				}
+				d := etcd.GetDelay
+				r.Go("early-attach", func() { attach(); attachDone = true })
+				r.Probe("attach_races_reload")
+				zsim.Sleep(d)
 			}
 			if seamed {
 				gets := etcd.Gets
@@ -365,6 +380,16 @@ func c15Run(r *zsim.Run) {
 					return
 				}
 			}
+			if !r.WaitFor(time.Minute, 100*time.Millisecond, func() bool { return attachDone }) {
+				r.Failf("subscribe-blocked", "a NewSubscriber call racing a reload did not return: %v", r.Alive(false))
+				return
+			}
+			if early {
+				together--
+			}
+			if r.Failed() {
+				return
+			}
 			etcd.GetDelay = 0
 			// the snapshot read is retried once a second until it succeeds; then a (second) reload may still be loading
 			r.WaitFor(30*time.Second, 100*time.Millisecond, func() bool { return etcd.GetFaults == 0 })
@@ -387,11 +412,16 @@ func c15Run(r *zsim.Run) {
 					mutate()
 				}
 				etcd.Deliver(o.Intn(2) == 0)
-				together = true
 				r.Probe("join_while_events_in_progress")
+				together++
+				ok := attach()
+				together--
+				if !ok {
+					return
+				}
+				break
 			}
 			ok := attach()
-			together = false
 			if !ok {
 				return
 			}
